@@ -40,7 +40,9 @@ Definition p_ube (a b : pd) : option pd :=
   | None => None
   end.
 
-Definition poly_dom : dom := mk_dom pd point p_den p_entails p_bottom p_top p_ub p_meet p_ube.
+Definition p_sc (a b : pd) : bool := yes (q_strictly_contains nb (fst a) (fst b)).
+
+Definition poly_dom : dom := mk_dom pd point p_den p_entails p_bottom p_top p_ub p_meet p_ube p_sc.
 
 Lemma p_entails_sound a b : p_entails a b = true -> forall p, p_den a p -> p_den b p.
 Proof.
@@ -50,7 +52,7 @@ Qed.
 
 Theorem poly_laws : laws poly_dom.
 Proof.
-  split; cbn [dden dent dbot dtop dub dmeet dube poly_dom dD dP].
+  split; cbn [dden dent dbot dtop dub dmeet dube dsc poly_dom dD dP].
   - exact p_entails_sound.
   - intros a. unfold p_bottom, no, p_den. destruct (nonempty_sys nb (fst a)) as [[|]|] eqn:E; try discriminate.
     intros _ p Hp. assert (false = true) by (apply (nonempty_sys_exact _ _ _ E); now exists p). discriminate.
@@ -67,6 +69,8 @@ Proof.
     + intros Hp. unfold yes in E3. destruct (union_incl nb [fst a; fst b] (fst h)) as [[|]|] eqn:U; try discriminate.
       destruct (proj1 (union_incl_exact _ _ _ _ U) eq_refl p Hp) as [c [[<-|[<-|[]]] Hc]]; [now left|now right].
     + intros [H|H]; [now apply (p_entails_sound a h E1)|now apply (p_entails_sound b h E2)].
+  - intros a b. unfold p_sc, yes, p_den. destruct (q_strictly_contains nb (fst a) (fst b)) as [[|]|] eqn:E; try discriminate.
+    intros _. apply (proj1 (q_strictly_contains_exact _ _ _ _ E) eq_refl).
 Qed.
 
 (* the emptiness test is complete whenever the oracle answers (its dimension bound is large enough) *)
